@@ -98,3 +98,8 @@ pub proof fn lemma_contains_u32(s: Seq<u32>, e: u32)
 pub open spec fn deref_seq(s: Seq<&u32>) -> Seq<u32> {
     s.map_values(|r: &u32| *r)
 }
+
+/// history-value table seen as a map from history state id to the recorded sequence of state ids
+pub open spec fn hvv(h: HashTable<u32, OrderedSet<u32>>) -> Map<u32, Seq<u32>> {
+    Map::new(h.data@.dom(), |k: u32| h.data@[k].data@)
+}
